@@ -79,6 +79,7 @@ def shards(tier):
     for first in range(len(HDR_OPS)):
         out.append({'kind': 'hdr', 'tier': tier, 'first': first, 'depth': 5 if tier == 'thorough' else 4})
     out.append({'kind': 'aux', 'tier': tier})
+    out.append({'kind': 'two-apps', 'tier': tier})
     for first in range(len(ARG_OPS)):
         out.append({'kind': 'args', 'tier': tier, 'first': first, 'depth': 4 if tier == 'thorough' else 3})
     return out
@@ -100,6 +101,52 @@ def _hdr_fn(ctx, n):
     if isinstance(h, (list, tuple)):
         h = h[0] if h else None
     return 'no-header' if h is None else '%s/%s/%s' % (h.hx, h.s, n)
+
+
+def run_two_apps(shard, res, only=None):
+    """two applications with the same target namespace publish a method of the same name with different signatures
+    (parameters swapped, one parameter fewer, one more); keyword / positional calls through a NullServer of each, in every
+    order of the applications: what was learnt about one application's method must not be used for another's"""
+    import itertools
+    from spyne.server.null import NullServer
+    sigs = {'ab': [['a', I], ['b', I]], 'ba': [['b', I], ['a', I]], 'a': [['a', I]], 'abc': [['a', I], ['b', I], ['c', I]]}
+
+    def fn(names):
+        return lambda ctx, *args: ' '.join('%s=%s' % (n, v) for n, v in zip(names, args))
+    quads = {}
+    for k, args in sigs.items():
+        q = Quad({'tns': TNS, 'classes': [], 'services': [{'n': 'S', 'methods': [{'n': 'pair', 'args': args, 'ret': U}]}]})
+        quads[k] = q
+        res['cov']['programs'] += 1
+    for order in itertools.permutations(sorted(sigs), 2):
+        key = ['two-apps', list(order)]
+        if only is not None and only != key:
+            continue
+        res['evaluations'] += 1
+        good = True
+        for k in order + (order[0],):
+            q = quads[k]
+            names = [a[0] for a in sigs[k]]
+            null = NullServer(q.napp, ostr=False)
+            for style in ('keyword', 'positional'):
+                vals = {n: i + 1 for i, n in enumerate(sorted(names))}
+                q.b.rec.reset()
+                q.b.rec.script['pair'] = ('call', fn(names))
+                try:
+                    got = null.service.pair(**vals) if style == 'keyword' else null.service.pair(*[vals[n] for n in names])
+                except Exception as e:
+                    got = 'raised %r' % (e,)
+                want = ' '.join('%s=%s' % (n, vals[n]) for n in names)
+                if got != want:
+                    res['violations'].append({'sig': 'C18|two-applications|%s|%s' % (style, 'first' if k == order[0] else 'second'),
+                                              'what': 'applications with pair%s and pair%s (same namespace), used in this order: a %s call of pair%s through NullServer gives %r, '
+                                                      'the function must see %r' % (tuple(sigs[order[0]][i][0] for i in range(len(sigs[order[0]]))), tuple(a[0] for a in sigs[order[1]]),
+                                                                                  style, tuple(names), got, want),
+                                              'case': {'shard': shard, 'only': key}, 'count': 1})
+                    good = False
+        if good:
+            res['nontrivial'] += 1
+    res['cov']['application_pairs'] = res['evaluations']
 
 
 def run_aux(shard, res, only=None):
@@ -488,6 +535,8 @@ def run_shard(shard, only=None):
         run_args(shard, res, only)
     elif shard['kind'] == 'aux':
         run_aux(shard, res, only)
+    elif shard['kind'] == 'two-apps':
+        run_two_apps(shard, res, only)
     else:
         from spyne.model.fault import Fault
         from spyne import Ignored
